@@ -5,6 +5,14 @@ import AgpTpf.Model.Remap
 namespace AgpTpf.C07
 open AgpTpf
 
+/-- results of the model can be compared by `decide` in the non-vacuity examples -/
+instance instDecEqR {α} [DecidableEq α] : DecidableEq (R α) := fun a b =>
+  match a, b with
+  | .ok x, .ok y => if h : x = y then isTrue (by rw [h]) else isFalse (by intro e; cases e; exact h rfl)
+  | .error x, .error y => if h : x = y then isTrue (by rw [h]) else isFalse (by intro e; cases e; exact h rfl)
+  | .ok _, .error _ => isFalse (by intro e; cases e)
+  | .error _, .ok _ => isFalse (by intro e; cases e)
+
 /-- the pairs of fragments that are directly adjacent (no gap row between them), in order -/
 def adjPairs : List Row → List (Fragment × Fragment)
   | [] => []
